@@ -77,13 +77,22 @@ G(o) == gs[o]
 Other(o) == 3 - o
 StOf(o) == IF o = 1 THEN Ev.st ELSE Ev.st2
 
+\* TLC keeps set expressions (differences, unions, filters) lazy; stored over many steps they nest and membership
+\* tests become exponential.  Every set-valued field is enumerated once before the state is stored.
+Norm(S) == {x : x \in S}
+NormF(f) == LET D == Norm(DOMAIN f) IN IF D = {} THEN << >> ELSE [x \in D |-> f[x]]
+NormG(g) == IF IsEmpty(g) THEN g
+            ELSE [g EXCEPT !.pts = Norm(g.pts), !.need = Norm(g.need), !.tens = Norm(g.tens), !.upd = Norm(g.upd),
+                           !.init = Norm(g.init), !.parkT = Norm(g.parkT), !.initT = Norm(g.initT),
+                           !.ep = NormF(g.ep), !.park = NormF(g.park)]
+
 \* install the new state of slot o, require the log to agree on both slots and on the result class
 Commit(o, res) ==
     /\ Req(<<"result", res.r>>, Ev.r = res.r)
     /\ Matches(res.g, StOf(o))
     /\ Req("other-slot", Matches(G(Other(o)), StOf(Other(o))))            \* C11: the other object is untouched
     /\ ObsOKFor(res.g, Ev.obs)
-    /\ gs' = [gs EXCEPT ![o] = res.g]
+    /\ gs' = [gs EXCEPT ![o] = NormG(res.g)]
 
 Unch == UNCHANGED ghost
 
